@@ -396,6 +396,8 @@ def make_decoder(real_decoder_cls):
             k, v = self._next("bytes", "utf8", "long")
             if k == "long":
                 # length written separately from its payload (container block framing)
+                if v == 0:
+                    return b""  # an empty payload writes no token
                 if self.fo.at_end():
                     raise EOFError(f"Expected {v} bytes, read 0")
                 k2, p = self.fo.next_tok()
@@ -413,6 +415,8 @@ def make_decoder(real_decoder_cls):
             return v.decode(errors=handle_unicode_errors) if k == "bytes" else v
 
         def read_fixed(self, size):
+            if size == 0:
+                return b""
             if self.fo.at_end():
                 raise EOFError(f"Expected {size} bytes, read 0")
             k, v = self.fo.next_tok()
